@@ -245,4 +245,21 @@ func init() {
 			"not decided: infoset equality as a whole, entity decoding, attribute-value normalisation, the look-ahead rule for dropping a trailing space in full, empty-element collapsing, CDATA-to-text conversion; several pre-existing deviations reported by the seeding agents (e.g. `<a><![CDATA[x]]> y</a>` -> `<a>xy</a>`) lie in these undecided parts",
 		},
 	})
+	registerProp(&PropSpec{
+		ID:       "C04",
+		Patterns: []string{"./css"},
+		Units: []string{
+			modPath + "/css.minifyColor", modPath + "/css.(Token).IsZero", modPath + "/css.minifyLengthPercentage",
+			modPath + "/css.minifyNumberPercentage", modPath + "/css.(*cssMinifier).minifyDimension",
+		},
+		Custom:  []string{"partial"},
+		Partial: []string{modPath + "/css.(*cssMinifier).minifyProperty"},
+		Notes: []string{
+			"value-rewriting kernels of the real css package under full contract (all inputs, byte-level postconditions whose meaning is stated next to them): minifyColor on hash colours (alpha pair dropped only when both nibbles are f, '#0000' only when both are 0, 3/4-digit form only when both nibbles of every channel are equal, otherwise the lower-cased input; name lookups are the C17 table lemmas); minifyNumberPercentage (d0% -> .d, .0d -> d%, .00x -> .x%, anything else unchanged); minifyLengthPercentage (only a value starting with 0 loses its unit and becomes that 0); Token.IsZero; minifyDimension (split at the last non-letter, unit lower-cased, exactly the number bytes handed once to Number - Decimal under KeepCSS2 - with the configured precision, result = that number followed by the unit, proved through the overlapping append)",
+			"site assertions in the real minifyProperty (partial contract): the flex rewrites that inspect only the first byte of <flex-grow>/<flex-shrink> are reached only when those numbers are single characters",
+			"C08 decides what Number/Decimal may do to the number bytes; C17 decides the colour tables entry by entry",
+			"not decided: the grammar walk (minifyGrammar/minifySelectors), every other shorthand rewrite of minifyProperty (margin/padding/border/background/font/box-shadow/..., including the background-position deviation quoted in the property), rgb()/hsl() conversion (floating point), unicode-range, url() and string handling, custom properties; 'already minified' is a premise of the kernels that their callers are assumed to establish",
+			"observation (not a listed finding): minifyDimension returns the unit as a slice of the input that the final append may overwrite when the number shrinks by fewer bytes than the unit is long (e.g. the unit of -0km reads back as mm); the only caller uses it for the optional-zero-unit lookup, where this can only drop the unit of a zero with an invalid two-letter unit ending in m",
+		},
+	})
 }
